@@ -288,6 +288,59 @@ type Leaf struct {
 	Store partstore.PartStore
 }
 
+// StaleRepo is the outbox entry repository with one addition: the answer of a reader's FIRST statement
+// (FindLastPartOutboxEntryByPartId) can be taken early — Arm runs the real statement now and keeps its
+// result — and is handed to the next GetPart of that part instead of running the statement again. That
+// is what a reader observes under statement-level visibility (Postgres READ COMMITTED) when commits and
+// worker passes happen between its first and its second statement; SQLite itself cannot produce the
+// interleaving (a read transaction keeps its snapshot). Everything else is the real repository.
+type StaleRepo struct {
+	partoutboxentry.Repository
+	mu    sync.Mutex
+	armed map[string]*staleAnswer
+}
+
+type staleAnswer struct{ entry *partoutboxentry.Entity }
+
+func staleKey(outboxId string, partId partstore.PartId) string {
+	return outboxId + "|" + partId.String()
+}
+
+// Arm executes the reader's first statement now and reports what it saw: "none", "put" or "del".
+func (r *StaleRepo) Arm(ctx context.Context, db database.Database, outboxId string, partId partstore.PartId) string {
+	var e *partoutboxentry.Entity
+	Check(database.WithTx(ctx, db, &sql.TxOptions{ReadOnly: true}, func(ctx context.Context, tx database.Tx) error {
+		var err error
+		e, err = r.Repository.FindLastPartOutboxEntryByPartId(ctx, tx.SqlTx(), outboxId, partId)
+		return err
+	}))
+	r.mu.Lock()
+	r.armed[staleKey(outboxId, partId)] = &staleAnswer{entry: e}
+	r.mu.Unlock()
+	switch {
+	case e == nil:
+		return "none"
+	case e.Operation == partoutboxentry.DeletePartOperation:
+		return "del"
+	}
+	return "put"
+}
+
+func (r *StaleRepo) FindLastPartOutboxEntryByPartId(ctx context.Context, tx *sql.Tx, outboxId string, partId partstore.PartId) (*partoutboxentry.Entity, error) {
+	r.mu.Lock()
+	a := r.armed[staleKey(outboxId, partId)]
+	delete(r.armed, staleKey(outboxId, partId))
+	r.mu.Unlock()
+	if a != nil {
+		if a.entry == nil {
+			return nil, nil
+		}
+		c := *a.entry
+		return &c, nil
+	}
+	return r.Repository.FindLastPartOutboxEntryByPartId(ctx, tx, outboxId, partId)
+}
+
 // StackEnv owns what all stacks of a harness run share: the SQLite database, the scratch
 // directory, the tink pool, the outbox gate.
 type StackEnv struct {
@@ -296,6 +349,7 @@ type StackEnv struct {
 	Gate     *Gate
 	Tinks    *TinkPool
 	outRepo  partoutboxentry.Repository
+	Stale    *StaleRepo // the repository every outbox of every stack uses (pass-through unless armed)
 	seq      int
 	Panics   atomic.Int64 // panics caught by GuardStores
 	InFlight atomic.Int64 // guarded shard-store PutPart calls still running
@@ -321,7 +375,8 @@ func NewStackEnv(dir string) *StackEnv {
 	Check(os.MkdirAll(dir, 0o755))
 	db := Must(sqlite.OpenDatabase(filepath.Join(dir, "pithos.db")))
 	e := &StackEnv{Dir: dir, DB: db, Gate: NewGate(), Tinks: &TinkPool{Password: "verif-c15"}}
-	e.outRepo = Must(repositoryfactory.NewPartOutboxEntryRepository(db))
+	e.Stale = &StaleRepo{Repository: Must(repositoryfactory.NewPartOutboxEntryRepository(db)), armed: map[string]*staleAnswer{}}
+	e.outRepo = e.Stale
 	return e
 }
 
